@@ -29,7 +29,7 @@
 From Coq Require Import List NArith ZArith Bool.
 From ApiFu Require Import Base.Sexp Fut.Plan Fut.Future Fut.ExecAsync Fut.ExecSync Fut.Denote Fut.SubPerm
      Fut.Live Fut.AsyncWrap Fut.AsyncRun Fut.FutSpec Fut.VisibleProofs Fut.SyncMust Fut.FutProofs
-     Fut.BridgeC01 Fut.BridgeProofs Fut.BridgeNulls Fut.BridgeCands Fut.BridgeCompose Fut.NoPrefill.
+     Fut.BridgeC01 Fut.BridgeProofs Fut.BridgeNulls Fut.BridgeCands Fut.BridgeCompose Fut.NoPrefill Fut.NoIdle.
 From ApiFu Require ExeA.ArgData ExeA.ArgArgs ExeA.ArgSpec ExeA.ArgModel ExeA.ArgHyps Val.Values.
 Import ListNotations.
 
@@ -281,6 +281,17 @@ Theorem C02_no_prefill_polls_append_blocked : forall root p s0 c s1,
     NP s s' /\ match ro with Some _ => True | None => NPclo c' end.
 Proof. exact no_prefill_polls_append_blocked. Qed.
 
+(** ** a request without an idle handler (executor.go wait(): "No idle handler defined.")
+
+    [run_nil fl md jfuel root] (Fut/NoIdle.v) is the executor with [Request.IdleHandler == nil]: [wait]
+    polls once and, if the future is still pending, gives up with an error that has no path.
+    An execution that needs no idle round — every resolver answers directly or through a promise
+    that is already fulfilled — is the same execution with and without a handler; so everything
+    the theorems above say of [run … 0 …] holds of it. *)
+Theorem C02_no_idle_handler_agrees : forall fl sigma md jfuel root r,
+  run fl sigma md 0 jfuel root = Done r -> run_nil fl md jfuel root = Done r.
+Proof. exact run_nil_agrees. Qed.
+
 (** ** supporting statements *)
 
 (** [conforms] does not see which resolvers are asynchronous. *)
@@ -388,6 +399,7 @@ Print Assumptions C02_no_prefill_build_field.
 Print Assumptions C02_no_prefill_poll.
 Print Assumptions C02_no_prefill_wait_wrap.
 Print Assumptions C02_no_prefill_polls_append_blocked.
+Print Assumptions C02_no_idle_handler_agrees.
 Print Assumptions C02_conforms_tag_blind.
 Print Assumptions C02_visible_nulls_agree.
 Print Assumptions C02_conforms_by_reading.
